@@ -88,6 +88,13 @@ pub fn c03_configs(tier: Tier) -> Vec<(Cfg, usize)> {
     c.align = true;
     c.inserts = false;
     v.push((c, d));
+    // the same text printed again and again (an unchanged frame must still be painted)
+    let mut c = Cfg::base("c03-same-text", 20, 40);
+    c.root = pre_logs(2, two_drawn());
+    c.same_log_text = true;
+    c.inserts = false;
+    c.remove = false;
+    v.push((c, d));
     // zombies: both bars finished visibly, then exploration
     let mut c = Cfg::base("c03-finished-pair", 20, 40);
     c.root = pre_logs(3, vec![Op::Add, Op::Add, Op::Tick(0), Op::Tick(1), Op::Finish(1), Op::Finish(0)]);
